@@ -109,7 +109,9 @@ def gen_case(r, k, tier):
             if n == 1 or min(np.abs(pos[i] - pos[j]).max() for i in range(n) for j in range(i)) >= 0.125:
                 break
         y = np.array([grid(r, -3, 3, 256) for _ in range(m)], dtype=float)
-        e = np.array([grid(r, 0.1, 0.7, 256) for _ in range(m)], dtype=float)
+        # multiples of 1/16: the exact 1/e^2 then has a small denominator (k^2 | 2^6 3^4 5^2 7^2 11^2), which
+        # keeps the rational arithmetic of the model cheap; the code's own y_err**-2 is a rounded double
+        e = np.array([r.randint(2, 12) / 16 for _ in range(m)], dtype=float)
         theta = MX.mean_hyperpars(r, mean, d) + MX.kernel_hyperpars(r, kern, n, d)
         case = {"m": m, "n": n, "d": d, "shape": shape, "rank": int(np.linalg.matrix_rank(A)),
                 "A": MX.hexlist(A), "y": MX.hexlist(y), "y_err": MX.hexlist(e), "positions": MX.hexlist(pos),
@@ -373,12 +375,20 @@ def run(rep: C.Report, tier: str) -> int:
 
     # evidence value: one interval goal per case (a slice of the cases in the quick tier)
     ev_idx = ok_idx[::3] if tier == "quick" else ok_idx[::2]
-    goals = []
-    pre = [EV_PREAMBLE]
-    for k in ev_idx:
-        pre.append(f"Definition case_{k} : lin_case :=\n {texts[k]}.")
-        goals.append((k, f"lml_goal case_{k}", "lml_tac"))
-    failed, broken = IV.check_goals(PROP, "evidence", goals, preamble="\n".join(pre), chunk=4, jobs=14, timeout=900)
+    from concurrent.futures import ThreadPoolExecutor
+    goals = [(k, f"lml_goal case_{k}", "lml_tac") for k in ev_idx]
+    chunks = [goals[i::14] for i in range(14) if goals[i::14]]
+
+    def run_chunk(ic):
+        i, ch = ic
+        pre = "\n".join([EV_PREAMBLE] + [f"Definition case_{k} : lin_case :=\n {texts[k]}." for k, _, _ in ch])
+        return IV._run_chunk(PROP, f"evidence_{i}", pre, "", ch, 900)
+    failed, broken = [], []
+    with ThreadPoolExecutor(max_workers=14) as ex:
+        for fl, br in ex.map(run_chunk, enumerate(chunks)):
+            failed.extend(fl)
+            if br:
+                broken.append(br)
     for br in broken:
         rep.obligation(False)
         rep.violation("C17/evidence-run", "an evidence goal file did not run",
